@@ -560,8 +560,16 @@ fn write_regular_header(
             return Err(RejectReason::DuplicateCl);
         }
         if let Some(length) = from_utf8(value).ok().and_then(|v| v.parse::<usize>().ok()) {
+            // RFC 9110 §8.6: a repeated Content-Length with the same value may be
+            // accepted, but must be forwarded as a single field: HTTP/1.1 backends
+            // treat two Content-Length lines as a framing error.
+            let duplicate = kawa.body_size == BodySize::Length(length);
             if !set_content_length(&mut kawa.body_size, length) {
                 return Err(RejectReason::ClTeConflict);
+            }
+            if duplicate {
+                kawa.storage.end = end_before_val;
+                return Ok(());
             }
         } else {
             return Err(RejectReason::DuplicateCl);
